@@ -166,3 +166,20 @@ Definition cogroup_schema (U : universe) (ss : list stype) (r : rspec) : Prop :=
             ss rests /\
     Forall (Keyable U) keys /\ max_nshard ss m /\
     r = mkR (keys ++ flat_map (map TSlice) rests) (Some (length keys)) m.
+
+(* FuncValue.Invocation: "panics with a type error if the provided arguments
+   do not match in type or arity": one argument per parameter; a parameter of
+   interface type takes any value whose type implements it, any other parameter
+   a value of exactly its type; an untyped nil only where Go allows nil. *)
+Definition nilable (t : ty) : Prop :=
+  (exists e, t = TSlice e) \/ (exists e, t = TPtr e) \/ (exists i v o, t = TFunc i v o) \/
+  is_iface t = true.
+
+Definition arg_fits (U : universe) (expect : ty) (have : option ty) : Prop :=
+  match have with
+  | None => nilable expect
+  | Some h => if is_iface expect then implements U h expect = true else h = expect
+  end.
+
+Definition invocation_schema (U : universe) (params : list ty) (args : list (option ty)) : Prop :=
+  Forall2 (arg_fits U) params args.
